@@ -10,7 +10,8 @@ A case:
                  "body": [node...]} ],
    "plans": [plan, ...]}              each plan is one schedule of the same program
 
-node:  {"a": "with"|"finish"|"finish_inside"|"task", "body": [...]}   an action
+node:  {"p": [...], "how": "context"|"run"}   body inside the PARENT action's context()/run()
+       {"a": "with"|"finish"|"finish_inside"|"task", "body": [...]}   an action
        {"m": "log_message"|"action_log"}                                a message
        {"s": [...]}                                                     body inside `with S.context():`
        {"g": [[...], [...]]}   (async only) nested gather of sub-tasks
@@ -52,6 +53,7 @@ class World(object):
         self.errors = []
         self.roots = []  # model roots
         self.ids = {}
+        self.parent = None
         self.ctx_switch_checks = 0
 
     def next_n(self, who="parent"):
@@ -91,8 +93,38 @@ class World(object):
                     current_action().log(message_type="c05:m", n=n, who=who)
                 else:
                     log_message(message_type="c05:m", n=n, who=who)
+            elif "p" in node:
+                # enter the context of the parent's (innermost outer) action, which the parent itself holds with `with`
+                if self.parent is None:
+                    continue
+                p_action, p_children = self.parent
+                yield ("before entering the parent action's context", cur)
+                how = node.get("how", "context")
+                stack.append((p_action, {"children": p_children}))
+                try:
+                    if how == "context":
+                        cm = p_action.context()
+                        cm.__enter__()
+                        try:
+                            for y in self.body(who, node["p"], stack, base, parent_model, shared):
+                                yield y
+                            yield ("before leaving the parent action's context", p_action)
+                        finally:
+                            cm.__exit__(None, None, None)
+                    else:
+                        # run(f): f cannot yield, so it only logs
+                        def f():
+                            self.expect(who, p_action, "inside parent.run(f)")
+                            n = self.next_n(who)
+                            p_children.append({"kind": "msg", "n": n, "who": who})
+                            log_message(message_type="c05:m", n=n, who=who)
+
+                        p_action.run(f)
+                finally:
+                    stack.pop()
+                self.expect(who, cur, "after leaving the parent action's context")
             elif "s" in node:
-                if shared is None or self.case["mode"] != "async":
+                if shared is None:
                     continue
                 s_action, s_model = shared
                 yield ("before entering shared context", cur)
@@ -231,6 +263,7 @@ def _prepare(world, case, parent, children):
 def _run_threads(world, case, plan):
     leave, parent, children = _enter_outer(world, case)
     shared = _prepare(world, case, parent, children)
+    world.parent = (parent, children) if parent is not None else None
     scheduler = sched.Scheduler((), plan)
     fns = []
     for k, w in enumerate(case["workers"]):
@@ -400,6 +433,7 @@ class AsyncController(object):
 def _run_async(world, case, plan):
     leave, parent, children = _enter_outer(world, case)
     shared = _prepare(world, case, parent, children)
+    world.parent = (parent, children) if parent is not None else None
     controller = AsyncController(plan)
     counter = [0]
 
